@@ -53,7 +53,9 @@ RULE = ("stage-level streams: (i) exhaustive histories up to a length bound over
         "slices (two CollGroups, chain/multicast sync groups, short and covering durations); (ii) random chain-"
         "allreduce scenarios, 2..8 ranks, 1..5 groups, receives pre-posted or just-in-time, sequential or "
         "interleaved groups with foreign events in the gap before the multicast part, truncated trailing groups, "
-        "duplicated sync tags, stale gaps, locally permuted arrival, compute slices in between; (iii) malformed "
+        "duplicated sync tags, stale gaps, locally permuted arrival, compute slices in between; (ii-b) 2..3 complete "
+        "pre-posted groups whose starts differ by 0..8 us (several groups complete at the same incoming event) followed "
+        "by a later group, exhaustive offsets + random; (iii) malformed "
         "streams for the error branches; (iv) a grid of names x args for flow_prepare_event_data; (v) permuted "
         "complete / damaged groups for detect_final; (vi) end-to-end acelyzer --flow runs. A case is non-trivial "
         "when at least one flow pair is created or an error branch / stale drop fires; distinct = distinct "
@@ -564,6 +566,44 @@ def gen_scenario(rng, force=None):
     return evs, tags
 
 
+def tight_scenario(R, offsets, later_gap=2000, later_mode="pre", tail=True, t=1000.0):
+    """2..3 complete PRE-POSTED chain groups whose starts differ by the small `offsets` (us), so that no sync-tagged
+    event starts between the end of the earlier and the end of the later group, followed by a later group: its first
+    event finds SEVERAL groups complete at once (flow_extraction builds the first candidate and returns; the next
+    candidate is built at the next helper event).  Every arrow of every group is due; no prefix situation."""
+    b = Builder()
+    end = t
+    for i, off in enumerate([0] + list(offsets)):
+        e, _ = chain_group(b, R, f"AllReduce_all_reduce_{i+1}", t + off, mode="pre", seq0=1000 * (i + 1))
+        end = max(end, e)
+    n = len(offsets) + 2
+    chain_group(b, R, f"AllReduce_all_reduce_{n}", end + later_gap, mode=later_mode, seq0=1000 * n)
+    if tail:
+        b.add(0, TID_CMPT, end + later_gap + 5000, 10, "mm_9 Cmpt Exec", {"jobhash": 7})
+    return b.sorted()
+
+
+def tight_grid(ctx: Ctx):
+    """exhaustive: 2 tight groups with every offset 0..8, 3 tight groups with every offset pair from {0,1,4,8}^2,
+    R in {2,3}, later group pre-posted / just in time"""
+    for R in (2, 3):
+        for later_mode in ("pre", "jit"):
+            for o in range(0, 9):
+                yield tight_scenario(R, [o], later_mode=later_mode), f"R{R}+o{o}+{later_mode}"
+            for o1 in (0, 1, 4, 8):
+                for o2 in (0, 1, 4, 8):
+                    yield tight_scenario(R, [o1, o2], later_mode=later_mode), f"R{R}+o{o1}_{o2}+{later_mode}"
+
+
+def tight_random(rng):
+    R = rng.choice([2, 3, 3, 4, 5, 6, 8])
+    offs = [float(rng.choice([0, 0.5, 1, 2, 3, 4, 5, 6, 7, 8])) for _ in range(rng.choice([1, 1, 2]))]
+    if rng.random() < 0.5:
+        offs = sorted(offs)
+    return tight_scenario(R, offs, later_gap=rng.choice([100, 2000, 50000]), later_mode=rng.choice(["pre", "jit"]),
+                          tail=rng.random() < 0.5, t=float(rng.randrange(100, 5000)))
+
+
 def malformed(rng):
     evs, _ = gen_scenario(rng, force=rng.choice(["seq_pre", "seq_jit"]))
     cand = [i for i, e in enumerate(evs) if "args" in e and sync_of(e["name"])]
@@ -727,10 +767,14 @@ def final_cases(ctx: Ctx):
 # end-to-end scenarios (input files for acelyzer --flow)
 # ---------------------------------------------------------------------------------------------
 
-def chain_allreduce_jit(ranks, gid, t, seq0, nbytes=524288, xfer=50, pause=0):
+def chain_allreduce_jit(ranks, gid, t, seq0, nbytes=524288, xfer=50, pause=0, prepost=False, lane=0):
     """like gen/scenario.py chain_allreduce but the receives are posted just in time; optional pause
-    before the multicast part (design_probes/e9.py)"""
-    from gen.scenario import TID_SEND as TS, TID_RECV as TR
+    before the multicast part (design_probes/e9.py).  `prepost`: receives posted at `t` instead (as in
+    allreduce_tp4.json); `lane`: offset of the send/receive tids, so that two groups overlapping in time do not
+    exhaust the overlap stage's tid budget of one lane."""
+    from gen.scenario import TID_SEND, TID_RECV
+    TS, TR = TID_SEND + lane, TID_RECV + lane
+    post = t - 1
     R = len(ranks)
     cg = f"AllReduce_all_reduce_{gid}"
     cur = t
@@ -740,7 +784,7 @@ def chain_allreduce_jit(ranks, gid, t, seq0, nbytes=524288, xfer=50, pause=0):
         ranks[r].dev_event(f"SenRdmaSend_{seq0+r} [sync={sync}] DmaO", TS, [s0 - 1, s0 - 1, s0, s0, s1],
                            {"Bytes": str(nbytes), "CollGroup": cg, "Peer": str(r + 1), "Type": "SingleCast"})
         ranks[r + 1].dev_event(f"SenRdmaReceive_{seq0+10+r} [{nbytes}B] [sync={sync}] DmaI", TR,
-                               [s0, s1, s1 + 1, s1 + 1, s1 + 2],
+                               [post if prepost else s0, s1, s1 + 1, s1 + 1, s1 + 2],
                                {"Bytes": str(nbytes), "CollGroup": cg, "Peer": str(r), "Type": "WDone Barrier"})
         cur = s1 + 5
     cur += pause
@@ -762,13 +806,13 @@ def chain_allreduce_jit(ranks, gid, t, seq0, nbytes=524288, xfer=50, pause=0):
                           {"Bytes": str(nbytes), "CollGroup": cg, "Type": "MultiCast"})
     for p in range(R - 1):
         ranks[p].dev_event(f"SenRdmaReceive_{seq0+40+p} [{nbytes}B] [sync={sync}] DmaI", TR,
-                           [cur, d_end, d_end + 1, d_end + 1, d_end + 2],
+                           [post if prepost else cur, d_end, d_end + 1, d_end + 1, d_end + 2],
                            {"Bytes": str(nbytes), "CollGroup": cg, "Peer": str(last), "Type": "WDone Barrier"})
     return d_end + 2, mstart
 
 
 def e2e_files(spec):
-    """spec: {"R":…, "layout": "pre"|"jit_seq"|"jit_inter", "groups": n, "trunc": bool}"""
+    """spec: {"R":…, "layout": "pre"|"jit_seq"|"jit_inter"|"tight", "groups": n, "trunc": bool, "tight_off": us}"""
     from gen import scenario as sc
     R, layout, ng = spec["R"], spec["layout"], spec["groups"]
     ranks = [sc.Rank(r, 512.0, 1_000_000_000.0, 512 * 1000 * (r + 1)) for r in range(R)]
@@ -778,7 +822,13 @@ def e2e_files(spec):
     gid = 0
     for _ in range(ng):
         gid += 1
-        if layout == "pre":
+        if layout == "tight":
+            # two pre-posted groups starting `tight_off` us apart (complete at the same later event), then the next pair
+            end1 = chain_allreduce_jit(ranks, gid, t, 1000 * gid, prepost=True, lane=0)[0]
+            gid += 1
+            end2 = chain_allreduce_jit(ranks, gid, t + spec.get("tight_off", 4), 1000 * gid, prepost=True, lane=7)[0]
+            t = max(end1, end2) + 100
+        elif layout == "pre":
             t = sc.chain_allreduce(ranks, gid, t, 1000 * gid) + 50
         elif layout == "jit_seq":
             t = chain_allreduce_jit(ranks, gid, t, 1000 * gid)[0] + 50
@@ -926,6 +976,13 @@ def run(ctx: Ctx):
         for t in tags:
             ctx.count("scenario_" + t)
         stage_case(evs, "scenario:" + "+".join(sorted(tags)))
+    # (ii-b) several groups complete at the same incoming event: tightly overlapping pre-posted groups + a later group
+    for evs, lab in tight_grid(ctx):
+        ctx.count("tight_grid")
+        stage_case(evs, "tight-grid:" + lab)
+    for i in range(ctx.n(150, 1500)):
+        ctx.count("tight_random")
+        stage_case(tight_random(ctx.rng), "tight-random")
     # (iii) malformed
     for i in range(ctx.n(600, 4000)):
         evs, k = malformed(ctx.rng)
@@ -956,8 +1013,10 @@ def run(ctx: Ctx):
             if layout == "pre" and R > 5:
                 continue    # gen/scenario.py chain_allreduce overlaps R+1 sends on one lane: beyond the overlap tid budget
             specs.append({"R": R, "layout": layout, "groups": 2 if ctx.quick() else 3, "trunc": (R + len(layout)) % 2 == 0})
+    for R, off in (((2, 4), (3, 4), (3, 0)) if ctx.quick() else ((2, 0), (2, 4), (3, 0), (3, 4), (3, 8), (4, 4))):
+        specs.append({"R": R, "layout": "tight", "groups": 2, "tight_off": off, "trunc": False})
     if ctx.search_mode:
-        specs = specs[:6]
+        specs = specs[:6] + [sp for sp in specs if sp["layout"] == "tight"][:2]
     for spec in specs:
         case = {"kind": "e2e", "spec": spec}
         res, _, _, vs = oracle_on_case(ctx, case)
